@@ -48,6 +48,7 @@ broadcast use {super::seqfold::lemma_concat_push, super::seqfold::lemma_concat_e
 impl InformationRequestHeaderTag {
 //@extract multiboot2-header/src/information_request.rs :: impl InformationRequestHeaderTag :: fn new
 //@  ret r
+//@  optional
 //@  rules R2b
 //@  rewrite /slice::from_raw_parts\((\w+)\.cast::<u8>\(\), mem::size_of_val\((\w+)\)\)/ => /bytes_from_raw_parts(\1.cast::<u8>(), mem::size_of_val(\2))/
 //@  rewrite /new_boxed\(header, &\[(\w+)\]\)/ => /{ let parts: [&[u8]; 1] = [\1]; proof { assert(parts@ =~= Seq::<&[u8]>::empty().push(\1)); } new_boxed(header, parts.as_slice()) }/
